@@ -16,6 +16,8 @@ pub const NAME_POOL: &[(&str, &str)] = &[
     ("time-limited", "removal-marker"),
     ("期限", "印"),
     ("t.l", "r+m"),
+    // one name a proper prefix of the other
+    ("tl", "t"),
 ];
 
 #[derive(Debug, Clone, PartialEq)]
